@@ -200,11 +200,11 @@ class Section(Entity):
                             "is the same as the source parent")
         obj._parent._h5group.copy(source=src, dest=self._h5group,
                                   name=name, cls=clsname,
-                                  keep_id=keep_id)
+                                  shallow=not children, keep_id=keep_id)
 
         if not children:
             for prop in obj.props:
-                self.sections[obj.name].create_property(copy_from=prop, keep_copy_id=keep_id)
+                self.sections[name].create_property(copy_from=prop, keep_copy_id=keep_id)
 
         return self.sections[name]
 
